@@ -146,6 +146,10 @@ def check_c02(rep):
     if not quick:
         run_instance(rep, "arith_bfv16", "bfv_16_97_50,50,50,50", actions=ARITH, depth=7, extra_sample=20000)
         run_instance(rep, "arith_bgv4", "bgv_4_17_40,40,40,40", actions=ARITH, depth=7, extra_sample=20000)
+    # k-ary sum and product (1..4 operands, repetitions, mixed levels / sizes / correction factors)
+    kary = ["Encode", "Encrypt", "AddMany", "MultiplyMany", "Multiply", "ModSwitchNext"]
+    for sch, ps in (("bfv", "bfv_8_17_55,55,55,55"), ("bgv", "bgv_8_17_55,55,55,55")):
+        run_instance(rep, "kary_" + sch, ps, actions=kary, depth=4 if quick else 5, ct_slots=("c1", "c2"), pt_slots=("p1",), msgs=[[1, 2, 3], [0, 16], [5]], extra_sample=2000 if quick else 20000)
     # impl -> spec: recorded seeded-random programs validated against Trace_HE.tla (DESIGN.md 4.5)
     import he_trace
     for nm, ps in (("bfv", BFV), ("bgv", BGV), ("bfv_bigt", "bfv_8_12289_10,50,50,50"), ("bgv_mixed", "bgv_8_17_36,50,45,50")):
